@@ -182,7 +182,10 @@ impl Runner<'_> {
             self.tally.failures.push((
                 key,
                 format!("[{}] {}: {}", case.family, v.class, v.detail),
-                format!("family: {}\nclass: {}\n{}\n{}\n--- program ---\n{}", case.family, v.class, v.detail, expected, src),
+                format!(
+                    "family: {}\nclass: {}\ntype_checks: {}\n{}\n{}\n--- program ---\n{}",
+                    case.family, v.class, self.cfg.type_checks, v.detail, expected, src
+                ),
             ));
         }
     }
@@ -226,27 +229,43 @@ pub fn run_profile(
     rule: &str,
     assumptions: &[&str],
 ) -> i32 {
+    run_profile_cfgs(args, vec![cfg], generate, classify, extra_check, rule, assumptions)
+}
+
+pub fn run_profile_cfgs(
+    args: &Args,
+    cfgs: Vec<RunCfg>,
+    generate: &(dyn Fn(Tier, Emit) + Sync),
+    classify: &(dyn Fn(&Case, &Verdict, &Obs, Option<&crate::kref::RefObs>) -> Option<String> + Sync),
+    extra_check: Option<&(dyn Fn(&Case, &str, &Obs) -> Option<(String, String)> + Sync)>,
+    rule: &str,
+    assumptions: &[&str],
+) -> i32 {
     if let Some(path) = &args.replay {
-        return replay(args, path, &cfg);
+        return replay(args, path, &cfgs[0]);
     }
     install_quiet_panic_hook();
     let mut report = Report::new(args, "exploration");
     let nshards = threads() * 4;
     let tier = args.tier;
-    let tallies = par_shards_big_stack(nshards, 64 << 20, |shard| {
-        let mut r = Runner {
-            shard,
-            nshards,
-            idx: 0,
-            cfg: cfg.clone(),
-            tally: Tally::default(),
-            classify,
-            extra_check: extra_check.map(|f| f as &dyn Fn(&Case, &str, &Obs) -> Option<(String, String)>),
-        };
-        generate(tier, &mut |c| r.take(c));
-        r.tally
-    });
-    let t = merge_tallies(tallies);
+    let mut all = vec![];
+    for cfg in &cfgs {
+        let tallies = par_shards_big_stack(nshards, 64 << 20, |shard| {
+            let mut r = Runner {
+                shard,
+                nshards,
+                idx: 0,
+                cfg: cfg.clone(),
+                tally: Tally::default(),
+                classify,
+                extra_check: extra_check.map(|f| f as &dyn Fn(&Case, &str, &Obs) -> Option<(String, String)>),
+            };
+            generate(tier, &mut |c| r.take(c));
+            r.tally
+        });
+        all.extend(tallies);
+    }
+    let t = merge_tallies(all);
     if std::env::var("KV_TRIAGE").is_ok() {
         let mut groups: std::collections::BTreeMap<String, Vec<&String>> = Default::default();
         for (key, what, replay) in &t.failures {
